@@ -318,6 +318,28 @@ def popJitter (w : World) : Int × Clock × World :=
     | [] => (⟨0, 0⟩, env)
   (j, dt, { w with env := env })
 
+/-- The decision after a failed attempt: stop (`true`) or back off and retry.  Only a transport
+failure that is not a caller error and a non-2xx status are retryable, only before the third
+attempt and only while no server-dictated poll interval is in force. -/
+def giveUp (f : ReqFail) (attempt : Nat) (poll : Option Nat) : Bool :=
+  match f.err with
+  | .transport => attempt ≥ 3 || f.user || poll.isSome
+  | .status => attempt ≥ 3 || poll.isSome
+  | _ => true
+
+/-- Randomised exponential back-off after the `attempt`-th failure: `2^(attempt-1)` s ± 500 ms. -/
+def backoffMs (attempt : Nat) (j : Int) : Nat := 2 ^ (attempt - 1) * 1000 - 500 + (j % 1000).toNat
+
+def isOk {ε α} : Except ε α → Bool
+  | .ok _ => true
+  | .error _ => false
+
+/-- Arm the back-off timer after the `attempt`-th failure and wait for it. -/
+def backoff (attempt : Nat) (w : World) : World :=
+  let (j, dt, w) := popJitter w
+  let w := emit (.timerArm (.for_ (backoffMs attempt j * 1000000))) w
+  tick dt { w with nTimer := w.nTimer + 1 }
+
 /-- The attempt loop of `perform_update_check`: `fuel` attempts are left, `attempt` is 1-based. -/
 def attemptLoop : Nat → Nat → Request.Builder → World → Except ReqFail Bytes × Nat × World
   | 0, attempt, _, w => (.error ⟨.transport, false⟩, attempt, w)      -- unreachable: fuel = 3
@@ -325,26 +347,12 @@ def attemptLoop : Nat → Nat → Request.Builder → World → Except ReqFail B
     let start := w.clock.mono
     let (b, w) := withRequestId b w
     let (res, w) := omahaRequest .updateCheck b w
-    let w := if start ≤ w.clock.mono
-      then metric (.responseTime (w.clock.mono - start).toNat (match res with | .ok _ => true | .error _ => false)) w
-      else w
+    let w := if start ≤ w.clock.mono then metric (.responseTime (w.clock.mono - start).toNat (isOk res)) w else w
     match res with
     | .ok body => (.ok body, attempt, w)
     | .error f =>
-      let giveUp :=
-        match f.err with
-        | .transport => attempt ≥ 3 || f.user || w.ctx.st.poll.isSome
-        | .status => attempt ≥ 3 || w.ctx.st.poll.isSome
-        | _ => true
-      if giveUp then (.error f, attempt, yieldEv (.state .errorChecking) w)
-      else
-        -- randomized exponential back-off: 2^(attempt-1) s ± 500 ms
-        let (j, dt, w) := popJitter w
-        let ms := 2 ^ (attempt - 1) * 1000 - 500 + (j % 1000).toNat
-        let w := emit (.timerArm (.for_ (ms * 1000000))) w
-        let w := { w with nTimer := w.nTimer + 1 }
-        let w := tick dt w
-        attemptLoop fuel (attempt + 1) b w
+      if giveUp f attempt w.ctx.st.poll then (.error f, attempt, yieldEv (.state .errorChecking) w)
+      else attemptLoop fuel (attempt + 1) b (backoff attempt w)
 
 def eventError (code : Int) : Omaha.Event := { eventType := 3, eventResult := 0, errorcode := some code }
 def eventSuccess (ty : Nat) : Omaha.Event := { eventType := ty, eventResult := 1 }
@@ -438,7 +446,7 @@ def performUpdateCheck (params : RequestParams) (apps : List App) (w : World) :
   let (session, w) := nextGuid w
   let b := { b with sessionId := some (guidBytes session) }
   let (res, attempts, w) := attemptLoop 3 1 b w
-  let w := metric (.requestsPerCheck attempts (match res with | .ok _ => true | .error _ => false)) w
+  let w := metric (.requestsPerCheck attempts (isOk res)) w
   match res with
   | .error f => (some (.error (.omahaRequest f.err)), w)
   | .ok body =>
